@@ -20,6 +20,8 @@
 import LiteFSVerif.Props.C11
 import LiteFSVerif.Props.C20
 import LiteFSVerif.Model.Cluster
+import LiteFSVerif.Gen.Skel
+import LiteFSVerif.Model.ExpectedSkel
 
 namespace LiteFSVerif.C13
 open LiteFSVerif LiteFSVerif.Locks LiteFSVerif.Engine LiteFSVerif.Cluster LiteFSVerif.RWMutex LiteFSVerif.API
@@ -146,5 +148,16 @@ theorem C13_release (cid id : Int) (pos : Nat × Cks.Chk) :
 theorem C13_single_holder (cid id : Int) (cpos pos : Nat × Cks.Chk) (hne : cid ≠ id) :
     haltGrant (some (cid, cpos)) id pos false = (some (cid, cpos), none) := by
   simp [haltGrant, hne]
+
+/-- the control skeletons (branch conditions, loop heads, returns, order of calls and of state
+    assignments) of `DB.AcquireHaltLock`, `DB.ReleaseHaltLock`, `DB.AcquireRemoteHaltLock`, `DB.ReleaseRemoteHaltLock`, regenerated from the current source on every run, are the ones the
+    model was written and validated against (Model/ExpectedSkel.lean): a reordered, dropped or
+    altered check or call in these functions breaks this theorem -/
+theorem C13_source_skeletons :
+    Gen.Skel.DB_AcquireHaltLock = Expected.Skel.DB_AcquireHaltLock ∧
+    Gen.Skel.DB_ReleaseHaltLock = Expected.Skel.DB_ReleaseHaltLock ∧
+    Gen.Skel.DB_AcquireRemoteHaltLock = Expected.Skel.DB_AcquireRemoteHaltLock ∧
+    Gen.Skel.DB_ReleaseRemoteHaltLock = Expected.Skel.DB_ReleaseRemoteHaltLock :=
+  ⟨rfl, rfl, rfl, rfl⟩
 
 end LiteFSVerif.C13
